@@ -1,6 +1,7 @@
 package h
 
 import (
+	"sort"
 	"fmt"
 
 	"github.com/bilibili/gengine/builder"
@@ -107,14 +108,7 @@ func RunW1(p *Profile, plan, sched *simrt.Source, trace bool) *RunOut {
 		}
 	}
 	evolveOps = evolveByCall
-	for _, c := range sc.Calls {
-		for id, pl := range c.Plan {
-			rd := sc.Rule(id)
-			if pl.Fire >= 0 && pl.Fire < len(rd.Secs) && (rd.Secs[pl.Fire].Kind == SecUnb || rd.Secs[pl.Fire].Kind == SecUnbCont) {
-				cfg.StepCap = 5000000
-			}
-		}
-	}
+	limitEndlessLoops(sc, &cfg)
 	o.Describe = func() []string {
 		out := []string{fmt.Sprintf("config: strategy=%d stick=%d‰ shuffleMaps=%v psites=%d‰ stall=%d", cfg.Strategy, cfg.StickPermil, cfg.ShuffleMaps, cfg.PProb, cfg.StallSteps)}
 		for _, r := range order {
@@ -231,4 +225,31 @@ func execTrace(v *CallView) string {
 		s += " "
 	}
 	return s
+}
+
+// limitEndlessLoops keeps the number of planned endless-loop faults of a run small (each costs a whole loop
+// budget of steps, many times that when other tasks spin meanwhile) and raises the step cap when there are any:
+// the cap is there to end runs that hang, not runs that have a lot of honest work.
+func limitEndlessLoops(sc *Scenario, cfg *simrt.Config) {
+	n := 0
+	for _, c := range sc.Calls {
+		ids := make([]int, 0, len(c.Plan))
+		for id := range c.Plan {
+			ids = append(ids, id)
+		}
+		sort.Ints(ids)
+		for _, id := range ids {
+			pl := c.Plan[id]
+			rd := sc.Rule(id)
+			if rd != nil && pl.Fire >= 0 && pl.Fire < len(rd.Secs) && (rd.Secs[pl.Fire].Kind == SecUnb || rd.Secs[pl.Fire].Kind == SecUnbCont) {
+				n++
+				if n > 5 {
+					pl.Fire, pl.FireChild = -1, -1
+				}
+			}
+		}
+	}
+	if n > 0 && cfg.StepCap < 8000000 {
+		cfg.StepCap = 8000000
+	}
 }
